@@ -417,3 +417,78 @@ def switch_compare(data, stages):
     if free and not np.allclose(np.array(sel.pi_)[free], np.array(ref.pi_)[free], rtol=1e-6, atol=1e-9):
         return "pi_ of the unselected items differs", info
     return None, info
+
+
+# ------------------------------------------------------------------------------- family P
+PREFIX_HOWS = ["get_support", "selected_idx", "whole_array", "array_copy", "list_same_object", "array_fresh"]
+
+
+def prefix_refit(data, nr, kpre, how, n2, final_tables, tables_equal):
+    """FPS re-initialised with its own selected prefix, the prefix handed over AS THE API RETURNED IT
+    (get_support(indices=True, ordered=True), selected_idx_ itself, slices of them: views of the result
+    buffer) on the SAME object, which is then fitted cold again with n2 (>= kpre); or as an array on a
+    fresh object.  Returns a message or None."""
+    kind, axis = "fps", data["axis"]
+    X = np.array(data["X"], float)
+    Y = None if data["y"] is None else np.array(data["y"], float)
+
+    def fit(s):
+        with warnings.catch_warnings():
+            warnings.simplefilter("ignore")
+            return s.fit(X) if Y is None else s.fit(X, Y)
+
+    sel = S.make_selector(kind, axis, initialize=data["init"], n_to_select=nr, **data["extra"])
+    fit(sel)
+    first = [int(i) for i in sel.selected_idx_]
+    if how == "whole_array":
+        kpre = nr
+    want = first[:kpre]
+    if how == "get_support":
+        prefix = sel.get_support(indices=True, ordered=True)[:kpre]
+    elif how in ("selected_idx", "whole_array"):
+        prefix = sel.selected_idx_[:kpre]
+    elif how in ("array_copy", "array_fresh"):
+        prefix = np.array(sel.selected_idx_[:kpre])
+    else:
+        prefix = list(want)
+    n2 = max(n2, kpre)
+    if how == "array_fresh":
+        sel = S.make_selector(kind, axis, n_to_select=n2, **data["extra"])
+    rec = c01.Recorder(sel)
+    sel.set_params(initialize=prefix)
+    sel.n_to_select = n2
+    fit(sel)
+    tag = "prefix %s of its own selection passed as %s, cold refit with n_to_select=%d" % (want, how, n2)
+    after = [int(i) for i in np.asarray(sel.initialize).ravel()]
+    snap = snapshot(sel, kind, axis, rec.calls)
+    ref = final_tables(kind, axis, data["X"], data["y"], data["init"], data["extra"], [n2])
+    msg = tables_equal(kind, snap, ref)
+    note = "" if after == want else " (the `initialize` it was given reads %s after the fit)" % after
+    if msg:
+        return "%s: %s%s" % (tag, msg, note)
+    if note:
+        return "%s: fit changed the `initialize` it was given: it now reads %s" % (tag, after)
+    return None
+
+
+# ------------------------------------------------------------------------------- family D
+def gen_degenerate(rng, quick):
+    """CUR data with a DEGENERATE leading singular value: X = U diag(s) V^T, the first m singular
+    values equal, k below the multiplicity (the leading singular vectors are defined only up to a
+    rotation inside an m-dimensional space; which one svds returns depends on its starting vector)."""
+    nmax, dmax = (10, 8) if quick else (16, 10)
+    n, d = rng.randint(6, nmax), rng.randint(5, dmax)
+    r = min(n, d)
+    rs = np.random.RandomState(rng.getrandbits(31))
+    U, _ = np.linalg.qr(rs.normal(size=(n, r)))
+    V, _ = np.linalg.qr(rs.normal(size=(d, r)))
+    m = rng.choice([2, 2, 3])
+    top = rng.choice([2.0, 3.0, 4.5])
+    sing = [top] * m
+    while len(sing) < r:
+        sing.append(sing[-1] * rng.choice([0.5, 0.6, 0.7, 0.8]))
+    Xa = (U * np.array(sing)) @ V.T
+    axis = rng.choice([0, 1])
+    return dict(kind="cur", axis=axis, X=[[float(v) for v in row] for row in Xa], y=None, family="degenerate",
+                extra=dict(recompute_every=rng.choice([0, 0, 1]), k=rng.randint(1, m - 1)), init=None,
+                multiplicity=m, singular_values=sing)
